@@ -103,10 +103,39 @@ def r3(c):
     sl = one(f.calls('tokio::time::sleep::sleep_until'), 'sleep_until')
     c.ob('fail_requests_for/deadline', q.is_name(f, add.args[1], 'duration') and q.sem(f, sl.args[0]).kind == 'call' and q.sem(f, sl.args[0]).cs is add and not f.in_cycle(add.node),
          'fail_requests_for waits until now + duration (computed once)', '', add.loc())
-    if P.has('rodbus::server::task::SessionTask::sleep_for'):
-        s = P.fn('rodbus::server::task::SessionTask::sleep_for')
-        to = one(s.calls('tokio::time::timeout::timeout'), 'tokio::time::timeout')
-        c.ob('sleep_for/duration', q.is_name(s, to.args[0], 'duration'), 'sleep_for waits for the given duration', '', to.loc())
+    sleep_for_timer(c)
+
+
+def sleep_for_timer(c):
+    """the RTU server's wait: one timer per call, made from the duration given, created outside any loop (so that no
+    command handled during the wait can restart it)"""
+    P = c.P
+    if not P.has('rodbus::server::task::SessionTask::sleep_for'):
+        return
+    s = P.fn('rodbus::server::task::SessionTask::sleep_for')
+    c.saw(s, len(s.calls()))
+    tm = [cs for cs in s.calls('tokio::time::timeout::timeout', 'tokio::time::sleep::sleep', 'tokio::time::sleep::sleep_until', 'tokio::time::timeout::timeout_at')]
+    ok = len(tm) == 1
+    det = '%d timers' % len(tm)
+    if ok:
+        t = tm[0]
+        if t.is_('tokio::time::timeout::timeout', 'tokio::time::sleep::sleep'):
+            okd = q.is_name(s, t.args[0], 'duration')
+        else:
+            d = q.sem(s, t.args[0])
+            okd = d.kind == 'call' and d.cs.declared == 'core::ops::arith::Add::add' and any(q.is_name(s, a, 'duration') for a in d.cs.args) and not s.in_cycle(d.cs.node)
+        c.ob('sleep_for/duration', okd, 'sleep_for waits for the given duration', '', t.loc())
+        c.ob('sleep_for/one-deadline', not s.in_cycle(t.node), 'the timer of the wait is created once per call, outside the command loop: handling a command does not restart the wait', '', t.loc())
+        # the wait ends normally only when the timer fires (a command handled in between does not end it)
+        if t.is_('tokio::time::timeout::timeout', 'tokio::time::timeout::timeout_at'):
+            fired = q.outcomes(s, t).get('Err', [])
+        else:
+            fired = [sel['arms'][k] for sel in q.select_sites(s) for k, f in enumerate(sel['futures']) if f is t and k in sel['arms']]
+        free = s.reach_set(s.entry, avoid=set(fired)) | {s.entry}
+        early = [x['node'] for x in q.exits(s) if not q.exit_is_failure(s, x) and x['node'] in free]
+        c.ob('sleep_for/full-wait', bool(fired) and not early, 'sleep_for returns Ok only after its timer has fired', '%d timer edges, early Ok exits %s' % (len(fired), early), t.loc())
+    else:
+        c.ob('sleep_for/duration', False, 'sleep_for waits on exactly one timer made from the given duration', det, loc_of(s))
 
 
 @rule('C14', 'R14.4', 'Doubling: returns the current delay, then stores min(2 x current, max); reset and after_disconnect use min')
